@@ -36,8 +36,9 @@ CFG = """SPECIFICATION Spec
 CONSTANTS BodyAlphabet = "%(alpha)s"
  MaxBody = %(k)d
  SpellBody = 1
+ PairBody = 1
  EmitFrom = %(emit)d
-INVARIANTS TypeOK InDomain OracleLaws AlphabetOK EmitCase
+INVARIANTS TypeOK InDomain OracleLaws PairLaws AlphabetOK EmitCase
 CHECK_DEADLOCK FALSE
 """
 CTX = {
@@ -96,10 +97,14 @@ def region_of(c, body=None):
 
 
 # ----------------------------------------------------------------------------- projection
-def project(art, kind):
+KINDS = ("Math", "Timeline", "PreFormatted", "TagNode:source")
+
+
+def project(art):
+    """-> {"hits": {kind: [texts in document order]}, "alltext": str, "shape": [labels]}"""
     from mwlib.parser import nodes
     shape = []
-    hits = []
+    hits = {k: [] for k in KINDS}
     alltext = []
 
     def text_of(n):
@@ -113,30 +118,63 @@ def project(art, kind):
         return "".join(out)
 
     def walk(n):
-        cls = type(n).__name__
         if type(n) is nodes.Text:
             alltext.append(n.caption or "")
         else:
-            label = cls
+            label = type(n).__name__
             if type(n) is nodes.TagNode:
                 label = "TagNode:%s" % n.caption
             shape.append(label)
-            if label == kind:
-                if kind in ("Math", "Timeline"):
-                    hits.append(n.caption or "")
-                else:
-                    hits.append(text_of(n))
+            if label in hits:
+                hits[label].append((n.caption or "") if label in ("Math", "Timeline") else text_of(n))
         for c in n.children or []:
             walk(c)
     walk(art)
-    alltext = "".join(alltext)
-    if kind == "Text":
-        a = alltext.find("AAA ")
-        z = alltext.rfind(" ZZZ")
-        if a < 0 or z < a + 4 - 1:
-            return {"count": 0, "text": alltext, "shape": shape}
-        return {"count": 1, "text": alltext[a + 4:z], "shape": shape}
-    return {"count": len(hits), "text": hits[0] if len(hits) == 1 else hits, "shape": shape}
+    return {"hits": hits, "alltext": "".join(alltext), "shape": shape}
+
+
+def between(alltext, left, right):
+    a = alltext.find(left)
+    z = alltext.rfind(right)
+    if a < 0 or z < a + len(left) - 1:
+        return None
+    return alltext[a + len(left):z]
+
+
+def expected_regions(c):
+    """[(kind, text, (left sentinel, right sentinel))] in document order."""
+    first = (c["kind"], concretise(c["decoded"], c), ("AAA ", " ZZZ"))
+    if c.get("pair", "none") == "none":
+        return [first]
+    sec = c["second"]
+    second = (sec["kind"], concretise(sec["decoded"], c), ("BBB ", " YYY"))
+    return [second, first] if c["where"] == "before" else [first, second]
+
+
+def judge(obs, c):
+    """Compare the projection with the denotation: returns (fields that differ, what was seen)."""
+    exp = expected_regions(c)
+    bad = []
+    seen = {"count": {}, "text": []}
+    for kind in KINDS:
+        want = [t for k, t, _ in exp if k == kind]
+        got = obs["hits"][kind]
+        if want or kind in (c["kind"], c.get("second", {}).get("kind")):
+            seen["count"][kind] = len(got)
+            if len(got) != len(want):
+                bad.append("count")
+            elif got != want:
+                bad.append("text")
+            seen["text"] += got
+    for kind, text, (l, r) in exp:
+        if kind == "Text":
+            got = between(obs["alltext"], l, r)
+            seen["text"].append(got)
+            if got is None:
+                bad.append("count")
+            elif got != text:
+                bad.append("text")
+    return sorted(set(bad)), seen
 
 
 _ENT = re.compile(r"&[^;]*;")
@@ -171,27 +209,31 @@ class Runner:
         self.ref = {}        # (tag, ctx, mode, opener spelling) -> shape of the case with body <<a>>
         self.single = {}     # (tag, atom, mode) -> failure of the one-lexeme body at top level
 
-    def parse_case(self, c, mode, page=None):
-        if c["ctx"] == "tplbody":
-            raw = "{{%s}}" % page
-        else:
-            raw = CTX[c["ctx"]] % region_of(c)
-        with W.watchdog(WATCHDOG):
-            return W.parse(raw, self.db if mode == "db" else None, self.lang)
+    def document(self, c, page=None):
+        main = ("{{%s}}" % page) if c["ctx"] == "tplbody" else CTX[c["ctx"]] % region_of(c)
+        if c.get("pair", "none") == "none":
+            return main
+        sec = c["second"]
+        other = "BBB <%s>%s</%s> YYY" % (sec["tag"], concretise(sec["body"], c), sec["tag"])
+        return other + "\n\n" + main if c["where"] == "before" else main + "\n\n" + other
 
     def observe(self, c, mode, page=None):
         try:
-            art = self.parse_case(c, mode, page)
+            with W.watchdog(WATCHDOG):
+                art = W.parse(self.document(c, page), self.db if mode == "db" else None, self.lang)
         except W.Hang:
             return {"hang": True}
         except Exception as e:                                      # noqa: BLE001
             return {"crash": W.crash_key("parse_string", e), "repr": repr(e)[:200]}
-        return project(art, c["kind"])
+        return project(art)
 
     def ref_shape(self, c, mode):
-        k = (c["tag"], c["ctx"], mode, c.get("ospell", "lower"))
+        pair = c.get("pair", "none")
+        k = (c["tag"], c["ctx"], mode, c.get("ospell", "lower"), pair, c.get("where"))
         if k not in self.ref:
             rc = dict(c, body=["a"], cspell="lower")
+            if pair != "none":
+                rc["second"] = REFSECOND[(c["tag"], pair)]
             self.ref[k] = self.observe(rc, mode, "Bref-%s-%s" % (c["tag"], c.get("ospell", "lower"))).get("shape")
         return self.ref[k]
 
@@ -199,14 +241,11 @@ class Runner:
         obs = self.observe(case, mode, page)
         if "crash" in obs or "hang" in obs:
             return obs, ["crash" if "crash" in obs else "hang"]
-        bad = []
-        if obs["count"] != 1:
-            bad.append("count")
-        if obs["text"] != concretise(case["decoded"], case):
-            bad.append("text")
+        bad, seen = judge(obs, case)
         if obs["shape"] != self.ref_shape(case, mode):
             bad.append("shape")
-        return obs, bad
+        seen["shape"] = obs["shape"]
+        return seen, bad
 
 
 def roundtrip(case):
@@ -249,7 +288,7 @@ def _worker(args):
             # minimal failing input: when one of the lexemes fails alone at top level, the case is
             # attributed to that one-lexeme case (its own observation and fields make the key)
             attributed = None
-            if len(c["body"]) > 1 or c["ctx"] != "top":
+            if (len(c["body"]) > 1 or c["ctx"] != "top") and c.get("pair", "none") == "none":
                 for x in c["body"]:
                     k = (c["tag"], x, mode)
                     if k not in run.single:
@@ -266,7 +305,7 @@ def _worker(args):
                         break
             fails.append(attributed or {"cid": cid, "case": c, "mode": mode, "lang": lang, "fields": bad,
                                         "observed": obs, "seen_in": None})
-        if True:
+        if c.get("pair", "none") == "none":
             ok, got, want = roundtrip(c)
             nround += 1
             if not ok:
@@ -277,6 +316,7 @@ def _worker(args):
 
 
 SINGLES = {}     # (tag, atom) -> case dict from the enumeration (body of one lexeme, ctx top)
+REFSECOND = {}   # (tag, pair) -> the second region of the case with body <<a>>
 
 
 def _single_case(tag, atom):
@@ -289,6 +329,8 @@ def key_of(f):
         return f["observed"]["crash"]
     spell = "" if (c.get("ospell", "lower"), c.get("cspell", "lower")) == ("lower", "lower") else \
         " open=%s close=%s" % (c["ospell"], c["cspell"])
+    if c.get("pair", "none") != "none":
+        spell += " second=%s-%s" % (c["pair"], c["where"])
     return "opaque body=%s tag=%s%s ctx=%s mode=%s field=%s" % (
         json.dumps(c["body"]), c["tag"], spell, c["ctx"], f["mode"], "+".join(f["fields"]))
 
@@ -296,15 +338,14 @@ def key_of(f):
 def what_of(f):
     c = f["case"]
     o = f["observed"]
-    where = "%r in %s [%s]" % (region_of(c), c["ctx"], f["mode"])
+    doc = Runner(None, None).document(c, "B<n>")
+    where = "%r [%s, %s]" % (doc, c["ctx"], f["mode"])
     if "crash" in o:
         return "%s: %s" % (where, o["repr"])
     if f["mode"] == "uniq":
         return "replace_uniq(replace_tags(t)) = %r, expected %r" % (o["got"][:150], o["want"][:150])
-    return "%s: %s differ; node count %s, text %r (expected %r), shape %r" % (
-        where, "/".join(f["fields"]), o.get("count"),
-        o.get("text") if not isinstance(o.get("text"), list) else o.get("text")[:3], concretise(c["decoded"], c),
-        o.get("shape"))
+    return "%s: %s differ; expected %r, node counts %r, texts %r, shape %r" % (
+        where, "/".join(f["fields"]), [(k, t) for k, t, _ in expected_regions(c)], o.get("count"), o.get("text"), o.get("shape"))
 
 
 def generate(ctx, alpha, k, emit=0, simulate=None, seed=None, name=None):
@@ -330,13 +371,13 @@ def run(ctx):
     states, trans = r.distinct, r.generated
     nsim = 0
     if not quick:
-        seen = {(c["tag"], c["ctx"], c["ospell"], c["cspell"], tuple(c["body"])) for c in cases}
+        seen = {(c["tag"], c["ctx"], c["ospell"], c["cspell"], c["pair"], c["where"], tuple(c["body"])) for c in cases}
         # (TLC's simulator evaluates the invariants, hence EmitCase, on every successor of the last
         #  state of a behaviour: each of the 400 random 2-lexeme prefixes comes with all third lexemes)
         for i in range(4):
             rs, cs = generate(ctx, alpha, 3, emit=3, simulate=400, seed=ctx.seed * 10 + i, name="opaque-sim-%d" % i)
             for c in cs:
-                k = (c["tag"], c["ctx"], c["ospell"], c["cspell"], tuple(c["body"]))
+                k = (c["tag"], c["ctx"], c["ospell"], c["cspell"], c["pair"], c["where"], tuple(c["body"]))
                 if k not in seen:
                     seen.add(k)
                     cases.append(c)
@@ -344,25 +385,29 @@ def run(ctx):
     atoms = {x for c in cases for x in c["body"]}
     W.check_alphabet(ctx, atoms - {"ESC_CLOSER"})
     for c in cases:
-        if len(c["body"]) == 1 and c["ctx"] == "top" and (c["ospell"], c["cspell"]) == ("lower", "lower"):
+        if c["pair"] == "none" and len(c["body"]) == 1 and c["ctx"] == "top" and (c["ospell"], c["cspell"]) == ("lower", "lower"):
             SINGLES[(c["tag"], c["body"][0])] = c
+        if c["pair"] != "none" and c["body"] == ["a"]:
+            REFSECOND[(c["tag"], c["pair"])] = c["second"]
     nl = len(atoms) - 1
     expect = 36 * ((1 + nl + nl * nl) + 23 * (1 + nl))     # 6 x 4 spellings; the 23 non-default ones with bodies <= 1
-    nb = len([c for c in cases if len(c["body"]) <= 2])
+    nb = len([c for c in cases if len(c["body"]) <= 2 and c["pair"] == "none"])
+    npair = len([c for c in cases if c["pair"] != "none"])
     # per tag the own closer is excluded: every tag has the same number of lexemes
     if nb != expect:
         ctx.machinery("Opaque.tla emitted %d cases with <= 2 lexemes, expected %d" % (nb, expect))
     t1 = time.time()
     lang = W.LANGS[ctx.seed % len(W.LANGS)]
-    cases.sort(key=lambda c: (c["tag"], c["ctx"], c["ospell"], c["cspell"], c["body"]))     # TLC's BFS order depends on thread timing
+    cases.sort(key=lambda c: (c["tag"], c["ctx"], c["ospell"], c["cspell"], c["pair"], c["where"], c["body"]))     # TLC's BFS order depends on thread timing
     if quick:
         # two-lexeme bodies: two of the six contexts each, rotating with the body and the seed (all
         # contexts for bodies of <= 1 lexeme and for every spelling variant; thorough: everything)
         import zlib
         order = sorted(CTX)
         ncases = len(cases)
-        cases = [c for c in cases if len(c["body"]) < 2 or
-                 (zlib.crc32(json.dumps([c["tag"], c["body"]]).encode()) + order.index(c["ctx"]) + ctx.seed) % 3 == 0]
+        cases = [c for c in cases if (len(c["body"]) < 2 and c["pair"] == "none") or
+                 (zlib.crc32(json.dumps([c["tag"], c["body"], c["pair"], c["where"]]).encode()) + order.index(c["ctx"]) + ctx.seed)
+                 % (3 if c["pair"] == "none" else 2) == 0]
         ctx.note("quick: %d of %d cases selected" % (len(cases), ncases))
     indexed = list(enumerate(cases))
     random.Random(ctx.seed).shuffle(indexed)
@@ -385,7 +430,7 @@ def run(ctx):
         ctx.violation(key_of(f), what_of(f), {"case": f["case"], "mode": f["mode"], "lang": f["lang"],
                                               "first_seen_in": f.get("seen_in")})
     ctx.set_cover(evaluations=nparse + nround, distinct_nontrivial=nontrivial, exhaustive=True,
-                  cases=len(cases), parses=nparse, round_trips=nround, simulated_3_lexeme_cases=nsim,
+                  cases=len(cases), cases_with_two_regions=npair, parses=nparse, round_trips=nround, simulated_3_lexeme_cases=nsim,
                   body_alphabet=len(atoms), action_coverage=cov, outside_atomwise_denotation=nskip, states=states, transitions=trans,
                   rule="every case Opaque.tla generates — 6 tags x 6 contexts x all bodies of <= 2 lexemes over %d body lexemes "
                        "(incl. tags spelled through entities) with lower-case tags, and all bodies of <= 1 lexeme for the 23 other "
@@ -409,8 +454,10 @@ def replay(ctx, path):
     c = rec["case"]
     _, cases = generate(ctx, "structural", 1, name="opaque-replay")
     for x in cases:
-        if len(x["body"]) == 1 and x["ctx"] == "top" and (x["ospell"], x["cspell"]) == ("lower", "lower"):
+        if x["pair"] == "none" and len(x["body"]) == 1 and x["ctx"] == "top" and (x["ospell"], x["cspell"]) == ("lower", "lower"):
             SINGLES[(x["tag"], x["body"][0])] = x
+        if x["pair"] != "none" and x["body"] == ["a"]:
+            REFSECOND[(x["tag"], x["pair"])] = x["second"]
     fails, _, _, _, _ = _worker((0, rec.get("lang") or "en", [(0, c)], ctx.scratch, None))
     for f in fails:
         ctx.violation(key_of(f), what_of(f), rec)
